@@ -387,7 +387,7 @@ func (t *Tree) removeTip(tip *Node) error {
 		}
 
 		if length1 != NIL_LENGTH || length2 != NIL_LENGTH {
-			e.SetLength(math.Max(0, length1) + math.Max(0, length2))
+			e.SetLength(lengthOrZero(length1) + lengthOrZero(length2))
 		}
 
 		// We attribute a support to the new branch only if it is not a tip branch
@@ -1340,7 +1340,7 @@ func (t *Tree) removeSingleNodesRecur(current, previous *Node, e *Edge) error {
 				}
 				previous.addChild(child, child.br[idx])
 				if child.br[idx].Length() != NIL_LENGTH || length != NIL_LENGTH {
-					child.br[idx].SetLength(math.Max(0, child.br[idx].Length()) + math.Max(0, length))
+					child.br[idx].SetLength(lengthOrZero(child.br[idx].Length()) + lengthOrZero(length))
 				}
 			}
 		}
@@ -1458,6 +1458,16 @@ func (t *Tree) RemoveEdges(removeRoot, removeTips bool, edges ...*Edge) {
 	t.ReinitInternalIndexes()
 }
 
+// Length of a branch when it is added to the length of another one:
+// only an absent length (NIL_LENGTH) counts as 0, a negative length
+// keeps its value
+func lengthOrZero(l float64) float64 {
+	if l == NIL_LENGTH {
+		return 0
+	}
+	return l
+}
+
 // Unroots a rooted tree by removing the bifurcating root, and
 // rerooting to one of the non tip direct children of the previous root.
 func (t *Tree) UnRoot() {
@@ -1488,7 +1498,7 @@ func (t *Tree) UnRoot() {
 	}
 
 	if e1.Length() != NIL_LENGTH || e2.Length() != NIL_LENGTH {
-		e3.SetLength(math.Max(0, e1.Length()) + math.Max(0, e2.Length()))
+		e3.SetLength(lengthOrZero(e1.Length()) + lengthOrZero(e2.Length()))
 	}
 	if !n1.Tip() && !n2.Tip() && (e1.Support() != NIL_SUPPORT || e2.Support() != NIL_SUPPORT) {
 		e3.SetSupport(math.Max(math.Max(0, e1.Support()), math.Max(0, e2.Support())))
